@@ -626,10 +626,7 @@ func (r *ref) call(at any, name string, args []any) any {
 			case string:
 				k = "s"
 			case int64, int, float64:
-				k = "n"
-				if iv, ok := isInt(tv); ok && !exactF(iv) {
-					unspec("sort key beyond 2^53")
-				}
+				k = "n" // (two integer keys are compared exactly, see cmpExact)
 			case time.Time:
 				k = "t"
 			default:
@@ -654,9 +651,7 @@ func (r *ref) call(at any, name string, args []any) any {
 			case "t":
 				return a.(time.Time).Before(b.(time.Time))
 			}
-			fa, _ := isNum(a)
-			fb, _ := isNum(b)
-			return fa < fb
+			return cmpExact(a, b) < 0
 		}
 		sort.SliceStable(idx, func(i, j int) bool { return less(keys[idx[i]], keys[idx[j]]) })
 		for i := 0; i+1 < len(idx); i++ {
